@@ -391,7 +391,9 @@ def check_concrete_inputs(out, facts):
             ok_arm = [x for k_, x in arms.items() if str(k_).startswith('Ok')]
             err_arm = [x for k_, x in arms.items() if str(k_).startswith('Err')]
             by_match = len(ok_arm) == 1 and len(err_arm) == 1 and not events(ok_arm[0]) and sym._ends_err(err_arm[0]) and sym.vstr(v) in ('Ok(())', 'Ok(unit)')
-        okr = okr and (direct or by_match)
+        # `self.0.read_exact(into)?; Ok(())`: the error is propagated (converted by `?`), success returns Ok(())
+        by_try = any(e[0] == '?' for e in events(t)) and sym.vstr(v) in ('Ok(())', 'Ok(unit)') and not alts
+        okr = okr and (direct or by_match or by_try)
         out.ob('R08.4', 'IoReader::read [%s]' % cfg, okr, 'IoReader::read is not `read_exact(into)` with the error mapped: %s -> %s' % (sym.tstr(t), sym.vstr(v)), f['loc'])
     # BytesCursor
     if 'codec::BytesCursor' in impls:
